@@ -125,3 +125,88 @@ pub fn for_all_strings(alphabet: &[char], max_len: usize, f: &mut dyn FnMut(&str
     let mut cur = String::new();
     rec(alphabet, &mut cur, max_len, f);
 }
+
+/// Non-ASCII relatives of ASCII characters: characters whose Unicode case mappings produce the
+/// ASCII character (Kelvin sign -> k, long s -> S, dotted capital I -> i ...), computed once by
+/// scanning every scalar value.
+fn case_relatives() -> &'static Vec<Vec<char>> {
+    static REL: std::sync::OnceLock<Vec<Vec<char>>> = std::sync::OnceLock::new();
+    REL.get_or_init(|| {
+        let mut rel: Vec<Vec<char>> = vec![Vec::new(); 128];
+        for v in 0x80u32..0x110000 {
+            if let Some(x) = char::from_u32(v) {
+                for y in x.to_lowercase().chain(x.to_uppercase()) {
+                    if y.is_ascii() && !rel[y as usize].contains(&x) {
+                        rel[y as usize].push(x);
+                    }
+                }
+            }
+        }
+        rel
+    })
+}
+
+/// Look-alikes / aliases of an ASCII character that a careless parser might accept: characters with
+/// the same low byte (`c as u8` narrowing), full-width forms, Unicode decimal digits of the same
+/// value, case-mapping relatives, the other ASCII case.
+pub fn confusables(c: char) -> Vec<char> {
+    let mut v: Vec<char> = Vec::new();
+    if !c.is_ascii() {
+        return v;
+    }
+    let b = c as u32;
+    for k in [0x100u32, 0x200, 0x300, 0x400, 0x500, 0x600, 0x700, 0x1000, 0x2100, 0xA000, 0xFF00, 0x10000, 0x1F600, 0x100000] {
+        if let Some(x) = char::from_u32(k + b) {
+            v.push(x);
+        }
+    }
+    if (0x21..=0x7e).contains(&b) {
+        if let Some(x) = char::from_u32(0xFF00 + b - 0x20) {
+            v.push(x); // full-width form
+        }
+    }
+    if c.is_ascii_digit() {
+        let d = b - '0' as u32;
+        for base in [0x0660u32, 0x06F0, 0x0966, 0xFF10, 0x1D7CE, 0x1D7D8, 0x2080, 0x2070] {
+            if let Some(x) = char::from_u32(base + d) {
+                v.push(x);
+            }
+        }
+    }
+    v.extend(case_relatives()[b as usize].iter().copied());
+    if c.is_ascii_alphabetic() {
+        // relatives of the other case too (the Kelvin sign lowercases to 'k' but is itself upper case)
+        let o = if c.is_ascii_uppercase() { c.to_ascii_lowercase() } else { c.to_ascii_uppercase() };
+        v.extend(case_relatives()[o as usize].iter().copied());
+        v.push(if c.is_ascii_uppercase() { c.to_ascii_lowercase() } else { c.to_ascii_uppercase() });
+    }
+    v
+}
+
+/// Replace one ASCII character of `s` by one of its confusables.
+pub fn alias_substitution(rng: &mut Rng, s: &str) -> String {
+    let mut cs: Vec<char> = s.chars().collect();
+    let idxs: Vec<usize> = (0..cs.len()).filter(|&i| cs[i].is_ascii() && cs[i] != ' ').collect();
+    if idxs.is_empty() {
+        return s.to_string();
+    }
+    let i = *rng.pick(&idxs);
+    let c = confusables(cs[i]);
+    if !c.is_empty() {
+        cs[i] = *rng.pick(&c);
+    }
+    cs.into_iter().collect()
+}
+
+/// Every single-character confusable substitution of `s`.
+pub fn for_all_alias_substitutions(s: &str, f: &mut dyn FnMut(&str)) {
+    let cs: Vec<char> = s.chars().collect();
+    for i in 0..cs.len() {
+        for x in confusables(cs[i]) {
+            let mut t = cs.clone();
+            t[i] = x;
+            let u: String = t.into_iter().collect();
+            f(&u);
+        }
+    }
+}
